@@ -5,9 +5,9 @@ HERE = os.path.dirname(os.path.dirname(os.path.abspath(__file__)))
 table = subprocess.run([sys.executable, os.path.join(HERE, 'tools', 'seeded_design_section.py')], capture_output=True, text=True, check=True).stdout
 INTRO = '''### 8.1 Seeded changes and the checks that catch them
 
-Four batches of sub-agents (20 per batch, one per property; 10 in batch 4, for the properties whose batch-3 change had been missed) were given only the text of that property and a
+Five batches of sub-agents (20 per batch, one per property; 10 in batch 4, for the properties whose batch-3 change had been missed; 10 in batch 5, for the other ten properties) were given only the text of that property and a
 private git worktree of `/repo`, nothing from `/verif`, and asked for changes (three each in batch 1, two
-each in batch 2, one each in batches 3 and 4 — `<id>/1-3`, `/4-5`, `/6`, `/7`; later batches were told to avoid the earlier sites) that break the property while the code still compiles and
+each in batch 2, one each in batches 3, 4 and 5 — `<id>/1-3`, `/4-5`, `/6`, `/7`, `/8`; later batches were told to avoid the earlier sites) that break the property while the code still compiles and
 the existing tests still pass, each needing something specific to manifest, each with a demonstration script.
 A change was kept only after the demonstration passed on the clean tree and failed with the change in a fresh
 scratch worktree here (`tools/seeded_verify.sh`), and the repository's stable suite was run with the change
@@ -32,7 +32,8 @@ non-default options, 64-bit ids next to floats, one array object at two block po
 2 of the 8 misses are now refuted by D / G obligations (`Series.equals` once `is` between records was decidable,
 G14 for list aliasing in `TypeBlocks.__copy__` — which the proved value-level contract of `__copy__` cannot see),
 6 by wider stand-in scopes. The honest reading: on central, contracted code the machinery catches unseen changes;
-on the long tail it catches what its enumerations happen to include, and each batch moves that boundary a little. In batch 2 every one of the 23 missed changes led to a strengthening (named in the
+on the long tail it catches what its enumerations happen to include, and each batch moves that boundary a little.
+**Batch 5** (@N5@ changes for C01, C02, C04, C05, C06, C08, C13, C14, C15, C17 — the ten properties batch 4 had not covered; the agents were only told to prefer a less central code path) ran against the machinery as it stood after batch 4: @C5@ of @N5@ were reported by the first run, @DG5@ of them by a D or G obligation (see the table). In batch 2 every one of the 23 missed changes led to a strengthening (named in the
 "first run" column): new or completed contracts (`LocMap.bound_offset_slice`, `free_conditions` in the offset
 contract, `IndexHierarchy.from_index_items`, and — written after the stand-ins had been widened —
 `Index.equals`, `_ufunc_logical_skipna`, `SeriesAssign.__call__`, `normalize_container`, which now refute
@@ -51,11 +52,13 @@ the change was caught without knowing the class in advance.
 
 '''
 rows = [l for l in table.splitlines() if l.startswith('| C')]
+import json
+_fr5 = json.load(open(os.path.join(HERE, 'seeded', 'FIRST_RUN.json'))).get('batch5_first_run', {})
 def _b(l):
     k = l.split('|')[1].strip().split('/')[1]
-    return 4 if k == '7' else 3 if k == '6' else 2 if k in ('4', '5') else 1
+    return 5 if k == '8' else 4 if k == '7' else 3 if k == '6' else 2 if k in ('4', '5') else 1
 dg = lambda b: sum(1 for l in rows if _b(l) == b and ('**D**' in l or '**G**' in l))
-INTRO = INTRO.replace('@DG2@', str(dg(2))).replace('@DG1@', str(dg(1))).replace('@DG3@', str(dg(3))).replace('@DG4@', str(dg(4)))
+INTRO = INTRO.replace('@DG2@', str(dg(2))).replace('@DG1@', str(dg(1))).replace('@DG3@', str(dg(3))).replace('@DG4@', str(dg(4))).replace('@DG5@', str(dg(5))).replace('@N5@', str(sum(1 for l in rows if _b(l) == 5))).replace('@C5@', str(len(_fr5.get('caught', []))))
 p = os.path.join(HERE, 'DESIGN.md')
 s = open(p).read()
 a = s.index('### 8.1 Seeded changes')
